@@ -1,6 +1,7 @@
 import Demeter.Drv.Json
 import Demeter.Trigger
 import Demeter.Actuator
+import Demeter.Actuator.Causal
 namespace Demeter.Drv
 open Demeter Demeter.Core Lean
 
@@ -169,12 +170,30 @@ def runH : JHandler := fun j => do
     ("bars", .arr ((barIndex cfg).map iJ).toArray),
     ("err", errJ r.err)]
 
+/-! #### the views of C02 on a history of bar times (rows are identified by their position / timestamp) -/
+
+def viewsH : JHandler := fun j => do
+  let ts ← jIntArr j "ts"
+  let hours ← jIntArr j "hours"
+  let hist : List (Nat × Int) := ts.zipIdx.map fun (t, i) => (i, t)
+  let ks := List.range ts.length
+  let shift := ks.map fun k => match shiftView (D := Nat × Int) (fun _ => (none : Option Nat)) (fun d => some d.1) hist k with
+    | some (some i) => nJ i
+    | _ => Json.null
+  let twap := ks.map fun k => Json.arr ((twapView (fun d : Nat × Int => d.2) hist k).map fun d => nJ d.1).toArray
+  let book : List (Int × Unit) := hours.map fun t => (t, ())
+  let hour := ts.map fun t => match hourLookup book t with
+    | some (h, _) => iJ h
+    | none => Json.null
+  pure <| Json.mkObj [("shift", .arr shift.toArray), ("twap", .arr twap.toArray), ("hour", .arr hour.toArray)]
+
 end CoreDrv
 
 def coreHandlers : List (String × Handler) := []
 def coreJHandlers : List (String × JHandler) := [
   ("trig_run", CoreDrv.trigRunH),
-  ("run", CoreDrv.runH)
+  ("run", CoreDrv.runH),
+  ("views", CoreDrv.viewsH)
 ]
 
 end Demeter.Drv
